@@ -73,3 +73,10 @@ pub fn opt_sds_eq(a: Option<&SDS>, b: Option<&SDS>) -> bool {
 pub fn lww_obs_eq(a: &LwwRegister<SDS>, b: &LwwRegister<SDS>) -> bool {
     opt_sds_eq(a.get(), b.get()) && a.tombstone == b.tombstone && a.timestamp == b.timestamp
 }
+
+/// copy a concrete byte string into a stack array by individual constant assignments (no loop, no memcpy):
+/// CBMC keeps the bytes as constants, so code that scans or parses them is executed concretely.
+pub fn put_const<const N: usize>(b: &mut [u8; N], at: usize, src: &[u8]) {
+    macro_rules! one { ($($i:literal)*) => { $( if src.len() > $i { b[at + $i] = src[$i]; } )* } }
+    one!(0 1 2 3 4 5 6 7 8 9 10 11 12 13 14 15 16 17 18 19 20 21 22 23 24 25 26 27 28 29 30 31);
+}
